@@ -219,6 +219,9 @@ def run(ctx):
     from props import glue
     glue.filter_vs_match(ctx, rng)
     glue.emptied_brackets(ctx)
+    from props import clauses
+    clauses.bytes_high_and_nonascii_dirs(ctx)
+    clauses.empty_groups(ctx)
     return ctx.finish(RULE)
 
 
